@@ -108,7 +108,8 @@ GEN = LEAN / "RxModel" / "Gen"
 
 # tie modules that need the compiler's own macro expansion of the crate (nightly `-Zunpretty=expanded`)
 EXPANDED_TIES = ("RxModel.GenTie.Subject", "RxModel.GenTie.SubjectThreads", "RxModel.GenTie.Behavior",
-                 "RxModel.GenTie.BehaviorThreads", "RxModel.GenTie.Subscription", "RxModel.GenTie.GroupBy")
+                 "RxModel.GenTie.BehaviorThreads", "RxModel.GenTie.Subscription", "RxModel.GenTie.GroupBy", "RxModel.GenTie.MergeAll",
+                 "RxModel.GenTie.MergeAllThreads")
 
 
 def expanded_source():
